@@ -7,6 +7,7 @@ import (
 	"go/types"
 	"os"
 	"path/filepath"
+	"runtime/pprof"
 	"sort"
 	"strings"
 	"sync"
@@ -108,7 +109,13 @@ func main() {
 	pats := flag.String("patterns", "./...", "comma separated package patterns to load")
 	inits := flag.String("init", "", "comma separated extra package paths whose init is executed")
 	dump := flag.String("dump", "", "dump SSA of function pkg.Func and exit")
+	cpuprof := flag.String("cpuprofile", "", "write CPU profile")
 	flag.Parse()
+	if *cpuprof != "" {
+		f, _ := os.Create(*cpuprof)
+		pprof.StartCPUProfile(f)
+		defer pprof.StopCPUProfile()
+	}
 
 	t0 := time.Now()
 	P, err := loadProgram(*repo, *overlay, strings.Split(*pats, ","))
